@@ -28,7 +28,7 @@ Match(e) ==
     LET t == e.thr IN
     CASE e.e = "AcqCall" -> /\ Start(t) /\ obj'[t] = e.obj /\ mode'[t] = e.mode
       [] e.e = "AcqRet" /\ e.res = "true" -> /\ Acquired(t) /\ pc'[t] = "section"
-      [] e.e = "AcqRet" -> /\ (TLAcquire(t) \/ Cleanup(t)) /\ pc'[t] = "idle"
+      [] e.e = "AcqRet" -> Refused(t)
       [] e.e = "Exit" -> Leave(t)
       [] e.e = "RelRet" -> RelDone(t)
       [] OTHER -> FALSE
@@ -39,7 +39,7 @@ Consume == /\ l <= Len(T)
            /\ (T[l].e = "AcqRet" /\ T[l].res # "true") \/ Proj' = Logged(T[l])
            /\ l' = l + 1 /\ sil' = 0
 \* the line-level steps between two observable points
-Internal(t) == \/ (TLAcquire(t) /\ pc'[t] # "idle") \/ IncCounter(t) \/ OsOpen(t) \/ OsLock(t) \/ SetFd(t)
+Internal(t) == \/ TLAcquire(t) \/ Cleanup(t) \/ IncCounter(t) \/ OsOpen(t) \/ OsLock(t) \/ SetFd(t)
                \/ CloseFail(t) \/ Check(t) \/ (Acquired(t) /\ pc'[t] # "section")
                \/ RelCheck(t) \/ RelDecide(t) \/ OsUnlock(t) \/ OsClose(t) \/ TLRelease(t)
 Silent == /\ l <= Len(T)
